@@ -31,7 +31,10 @@ DEFAULT_WEIGHTS = {
     "RESTART": 2,
     "RECREATE": 1,
     "RACE": 0,
+    "READ": 0,
 }
+
+READ_PATHS = ["/", "/user", "/user/", "/user/calendars", "/user/calendars/", "/user/contacts/", "/user/calendars/c1/", "/user/calendars/c1", "/user/calendars/c2/", "/user/x1/", "/user/calendars/b1/", "/user/calendars/c1/n1/", "/user/contacts/a1/"]
 
 CAL_SLOTS = ["c1", "c1", "c1", "c2", "b1", "n1", "h1", "x1"]
 AB_SLOTS = ["a1", "a1", "h2"]
@@ -196,6 +199,9 @@ def program(draw, weights=None, min_steps=8, max_steps=30, prefixes=PREFIXES, se
                 steps.append({"op": "RACE", "fe": "aio", "afe": afe, "coll": draw(st.sampled_from(["c1", "c1", "b1", "h1"])), "name": draw(st.sampled_from(ics_names)), "ctype": "text/calendar", "body": enc_body(draw(st.sampled_from(cal_bodies))["raw"]), "reader": draw(st.sampled_from(["get", "get", "multiget"]))})
             else:
                 steps.append({"op": "RACE", "fe": "aio", "afe": afe, "coll": "a1", "name": draw(st.sampled_from(vcf_names)), "ctype": "text/vcard", "body": enc_body(draw(st.sampled_from(card_bodies))["raw"]), "reader": draw(st.sampled_from(["get", "multiget"]))})
+        elif op == "READ":
+            kind = draw(st.sampled_from(["propfind", "propfind", "propfind", "get", "head", "options", "calendar-query", "sync", "multiget-empty"]))
+            steps.append({"op": "READ", "fe": fe, "afe": afe, "kind": kind, "path": draw(st.sampled_from(READ_PATHS)), "depth": draw(st.sampled_from([0, 1, 1, "infinity"])), "allprop": draw(st.booleans())})
         elif op == "RESTART":
             steps.append({"op": "RESTART"})
         if locked_rate and steps[-1]["op"] in ("PUT", "DELETE", "PROPPATCH", "POST") and steps[-1].get("name", "") is not None and draw(st.integers(0, locked_rate - 1)) == 0:
